@@ -151,6 +151,33 @@ Theorem c03_step_source : forall s o, Inv2 SIZE s -> args_ok o ->
   Inv2 SIZE (state_of (step_src s o)).
 Proof. intros s o HI Ha. rewrite (step_src_eq s o (proj1 HI)). exact (Facets.C03.c03_step SIZE chk s o HI Ha). Qed.
 
+(* every finite history, in the forms Props/C01.v and Props/C03.v state them: the FIFO chain and the (len, writable) ledger over the
+   states the regenerated dispatcher goes through *)
+Fixpoint unreads_src (s : fb) (ops : list op) : list (list Z) :=
+  match ops with [] => [] | o :: t => let s' := state_of (step_src s o) in unread s' :: unreads_src s' t end.
+Fixpoint caps_src (s : fb) (ops : list op) : list (Z * Z) :=
+  match ops with [] => [] | o :: t => let s' := state_of (step_src s o) in (len_ s', wlen SIZE s') :: caps_src s' t end.
+Lemma observers_source_eq : forall ops s, Inv SIZE s -> ops_ok ops ->
+  unreads_src s ops = unreads SIZE chk s ops /\ caps_src s ops = caps SIZE chk s ops.
+Proof.
+  induction ops as [|o t IH]; intros s HI Hok; cbn [unreads_src unreads caps_src caps]; [auto|].
+  destruct Hok as [Ha Ht]. rewrite (step_src_eq s o HI).
+  destruct (Facets.C01.c01_step SIZE chk s o HI Ha) as [_ HI'].
+  destruct (IH _ HI' Ht) as [E1 E2]. rewrite E1, E2. auto.
+Qed.
+Theorem c01_history_source : forall ops s, Inv SIZE s -> ops_ok ops ->
+  fifo_chain (unread s) (trace_src s ops) (unreads_src s ops) /\ Inv SIZE (run_src s ops).
+Proof.
+  intros ops s HI Hok. destruct (api_source_eq ops s HI Hok) as [E1 E2]. destruct (observers_source_eq ops s HI Hok) as [E3 _].
+  rewrite E1, E2, E3. exact (Facets.C01.c01_history SIZE chk ops s HI Hok).
+Qed.
+Theorem c03_history_source : forall ops s, Inv2 SIZE s -> ops_ok ops ->
+  cap_chain SIZE (len_ s) (wlen SIZE s) (trace_src s ops) (caps_src s ops) /\ Inv2 SIZE (run_src s ops).
+Proof.
+  intros ops s HI Hok. destruct (api_source_eq ops s (proj1 HI) Hok) as [E1 E2]. destruct (observers_source_eq ops s (proj1 HI) Hok) as [_ E3].
+  rewrite E1, E2, E3. exact (Facets.C03.c03_history SIZE chk ops s HI Hok).
+Qed.
+
 (* C04 on the source: a call panics iff the documentation says so, and leaves a usable, unchanged buffer *)
 Theorem c04_step_source : forall s o, Inv SIZE s -> args_ok o -> ~ text_op o ->
   (is_panic (step_src s o) = true <-> documented_panic SIZE chk s o) /\
@@ -187,4 +214,4 @@ Print Assumptions c03_step_source.
 Print Assumptions c04_step_source.
 
 (* the engine audits every GenEq module under this name *)
-Definition gen_eq := (api_source_eq, c01_step_source, c01_ledger_source, c03_step_source, c04_step_source, constructors_source).
+Definition gen_eq := (api_source_eq, c01_step_source, c01_history_source, c01_ledger_source, c03_step_source, c03_history_source, c04_step_source, constructors_source).
